@@ -43,7 +43,8 @@ def effect (i : Instr) : Option Effect :=
   | "GETOK" => fall 2 2
   | "SET" => fall 3 0
   | "SLICE" => fall 3 1
-  | "DELETE" | "COPY" | "SETMETHOD" | "SETATTR" => fall 2 0
+  | "DELETE" | "SETMETHOD" | "SETATTR" => fall 2 0
+  | "COPY" => fall 2 (if i.c = 0 then 0 else 1)        -- the count is pushed only where it is used
   | "GLOBALZERO" => fall 0 0
   | "LOCALGET" => fall 0 1 [i.a]
   | "LOCALSET" => fall 1 0 [i.a]
